@@ -7,14 +7,17 @@
    of theorems is proved.  Switches:
      jv_close_joined  : resolve's final block closes p.joined (false = seeded change C11-3)
      jv_alloc_table   : Join allocates the other promise's client table (false = as found: F11c)
+     jv_refs_sum      : Join adds all of p's clientsRefs to the promise joined onto (false = seeded C11-r2-1: ++)
    No proofs in this file. *)
 From CV Require Import Promise.Promise.
 Open Scope Z_scope.
 
-Record jvariant := { jv_close_joined : bool; jv_alloc_table : bool }.
-Definition jfixed : jvariant := {| jv_close_joined := true; jv_alloc_table := true |}.
-Definition jseed3 : jvariant := {| jv_close_joined := false; jv_alloc_table := true |}.
-Definition jf11c : jvariant := {| jv_close_joined := true; jv_alloc_table := false |}.
+Record jvariant := { jv_close_joined : bool; jv_alloc_table : bool; jv_refs_sum : bool }.
+Definition jfixed : jvariant := {| jv_close_joined := true; jv_alloc_table := true; jv_refs_sum := true |}.
+Definition jseed3 : jvariant := {| jv_close_joined := false; jv_alloc_table := true; jv_refs_sum := true |}.
+Definition jf11c : jvariant := {| jv_close_joined := true; jv_alloc_table := false; jv_refs_sum := true |}.
+(* seeded change C11-r2-1: Join hands the promise joined onto one reference instead of all of p's *)
+Definition jrefs1 : jvariant := {| jv_close_joined := true; jv_alloc_table := true; jv_refs_sum := false |}.
 
 Inductive jop :=
 | JFulfill (k : nat) (caps : list (path * Z))
@@ -289,6 +292,8 @@ Definition sec_join_start (c : jconfig) (t : nat) (th : jthread) (k par : nat) :
 Definition sec_join_par (v : jvariant) (c : jconfig) (t : nat) (th : jthread) : option jconfig :=
   let k := j_cur th in
   let par := j_par th in
+  (* p.Join(p.Answer()): parent.mu.Lock() on the mutex this thread holds never returns *)
+  if Nat.eqb par k then None else
   if negb (free c par) then None else
   let p := getp c k in
   let q := getp c par in
@@ -304,7 +309,7 @@ Definition sec_join_par (v : jvariant) (c : jconfig) (t : nat) (th : jthread) : 
       let q1 := sp_crefs (sp_hastable (sp_clients (sp_signals q (p_signals q ++ p_signals p))
                                                   (merge_tab (p_clients q) (p_clients p)))
                                       (p_hastable q || negb (match p_clients p with [] => true | _ => false end)))
-                         (p_crefs q + p_crefs p) in
+                         (if jv_refs_sum v then p_crefs q + p_crefs p else p_crefs q + 1) in
       Some (sett (setp (setp c k p1) par q1) t (jfinish th ORet))
   else if is_pres q then
     Some (sett (setp c k (sp_mu (sp_joined p COpen) None)) t (jgoto th QJWaitRes))
@@ -387,19 +392,22 @@ Definition sec_jcall_start (c : jconfig) (t : nat) (th : jthread) (s : Z) : opti
          end
   end.
 
-(* ReleaseClients: flag on the receiver, then walk to the end of the chain *)
-Definition sec_rel_walk (c : jconfig) (t : nat) (th : jthread) (k0 : nat) : option jconfig :=
+(* ReleaseClients: flag on the receiver (first section only: j_waitx = 0), then walk to the end of the chain;
+   j_waitx = 1 afterwards: this call owes the chain's last promise one decrement of clientsRefs *)
+Definition sec_rel_walk (c : jconfig) (t : nat) (th : jthread) : option jconfig :=
   let k := j_cur th in
   if negb (free c k) then None else
   let p := getp c k in
-  if Nat.eqb k k0 && p_relflag p then Some (sett c t (jfinish th ONoop)) else
-  let p := if Nat.eqb k k0 then sp_relflag p true else p in
+  let first := Nat.eqb (j_waitx th) 0 in
+  if first && p_relflag p then Some (sett c t (jfinish th ONoop)) else
+  let p := if first then sp_relflag p true else p in
   match p_next p with
-  | Some q => Some (sett (setp c k p) t (sj_cur th q))
+  | Some q => Some (sett (setp c k p) t (sj_waitx (sj_cur th q) 1))
   | None =>
     let rf := p_crefs p - 1 in
-    if 0 <? rf then Some (sett (setp c k (sp_crefs p rf)) t (jfinish th ONoop))
-    else Some (sett (setp c k (sp_hastable (sp_clients (sp_crefs p rf) []) false)) t (sj_rest (jgoto th QRel) (rows_of p)))
+    if 0 <? rf then Some (sett (setp c k (sp_crefs p rf)) t (sj_waitx (jfinish th ONoop) 2))
+    else Some (sett (setp c k (sp_hastable (sp_clients (sp_crefs p rf) []) false)) t
+                    (sj_waitx (sj_rest (jgoto th QRel) (rows_of p)) 2))
   end.
 
 Definition sec_jrelease_proxy (c : jconfig) (t : nat) (th : jthread) : option jconfig :=
@@ -439,7 +447,7 @@ Definition jstep_thread (v : jvariant) (c : jconfig) (t : nat) (th : jthread) : 
     | JSend k p _ => Some (sett c t (sj_path (sj_cur (jgoto th QTrav) k) p))
     | JClient k _ _ => Some (sett c t (sj_cur (jgoto th QTrav) k))
     | JCall s _ => sec_jcall_start c t th s
-    | JRelease k => if p_resclosed (getp c k) then Some (sett c t (sj_cur (jgoto th QRelWalk) k)) else None
+    | JRelease k => if p_resclosed (getp c k) then Some (sett c t (sj_waitx (sj_cur (jgoto th QRelWalk) k) 0)) else None
     | JWait k => if p_resclosed (getp c k) then Some (sett c t (sj_cur (jgoto th QWaitWalk) k)) else None
     | JUngate n => Some (sett (sjgates c (n :: jgates c)) t (jfinish th ORet))
     end
@@ -479,7 +487,7 @@ Definition jstep_thread (v : jvariant) (c : jconfig) (t : nat) (th : jthread) : 
     let k := j_cur th in
     if negb (free c k) then None
     else Some (sett (setp c k (sp_mu (getp c k) (Some t))) t (jgoto th QJPar))
-  | QRelWalk => match j_op th with JRelease k0 => sec_rel_walk c t th k0 | _ => None end
+  | QRelWalk => sec_rel_walk c t th
   | QRel => sec_jrelease_proxy c t th
   | QRelWait => if jx_done (getx c (j_waitx th)) then Some (sett c t (jgoto th QRel)) else None
   | QWaitWalk => sec_wait_walk c t th
